@@ -75,7 +75,17 @@ def build(switch=None):
     sw()
     sights = [pb.Sight('SFP', U.Meter(100), U.Mil(0.1), U.MOA(0.25)), pb.Sight('FFP', None, U.MOA(0.25), U.Mil(0.1)),
               pb.Sight('LWIR', None, U.InchesPer100Yd(0.5), U.CmPer100m(1.0))]
-    return {'dm2': dm2, 'ammo': ammo, 'atmo': atmo, 'shot': shot, 'sights': sights, 'calc': pb.Calculator()}
+    # objects built with every optional argument OMITTED: whatever the library fills in must not depend on the preferences either
+    sw()
+    ammo_d = pb.Ammo(dm, U.FPS(2750), temp_modifier=0.02, use_powder_sensitivity=True)
+    sw()
+    atmo_d = pb.Atmo(temperature=U.Celsius(-5))
+    sw()
+    shot_d = pb.Shot(pb.Weapon(), ammo_d, atmo=atmo_d)
+    sw()
+    shot_dd = pb.Shot(pb.Weapon(U.Inch(1.5)), pb.Ammo(dm, U.FPS(2600)))
+    return {'dm2': dm2, 'ammo': ammo, 'atmo': atmo, 'shot': shot, 'sights': sights, 'calc': pb.Calculator(), 'shot_d': shot_d, 'shot_dd': shot_dd,
+            'ammo_d': ammo_d, 'atmo_d': atmo_d}
 
 
 def compute(o):
@@ -93,6 +103,10 @@ def compute(o):
     out['extra_rows'] = traj_bits(r.trajectory)
     out['plain_rows'] = traj_bits(p.trajectory)
     out['danger'] = [bits(ds.begin.distance.raw_value), bits(ds.end.distance.raw_value), bits(ds.at_range.distance.raw_value)]
+    out['defaults'] = (traj_bits(calc.fire(o['shot_d'], U.Yard(100), U.Yard(50)).trajectory) + traj_bits(calc.fire(o['shot_dd'], U.Yard(100), U.Yard(50)).trajectory)
+                       + [bits(o['ammo_d'].powder_temp.raw_value), bits(o['atmo_d'].powder_temp.raw_value), bits(o['atmo_d'].pressure.raw_value),
+                          bits(o['shot_dd'].atmo.temperature.raw_value), bits(o['shot_dd'].winds[0].until_distance.raw_value), bits(pb.Atmo.icao().density_ratio),
+                          bits(pb.Vacuum().temperature.raw_value), bits(o['ammo_d'].get_velocity_for_temp(U.Celsius(30)).raw_value)])
     out['multibc'] = [bits(o['dm2'].BC)] + [bits(pt.CD) for pt in o['dm2'].drag_table]
     sg = []
     for s in o['sights']:
